@@ -185,11 +185,16 @@ func (vs *ValidatorStore) ExecuteAllegationTracker(ctx *ValidatorContext, active
 			data := vs.store.GetVersioned(vs.lastHeight-1, key)
 			if len(data) == 0 {
 				logger.Errorf("Previous state data not found for address: %s\n", addrHuman)
+				// the accused has no validator record any more (it unstaked everything and was removed):
+				// there is no stake to cut, but the verdict stands and the request must be closed,
+				// otherwise the tally is repeated in every block and keeps moving the freeze time
+				vs.closeDecidedRequest(ctx, ar, &addrToDelete)
 				continue
 			}
 			validator := &Validator{}
 			if err := serialize.GetSerializer(serialize.JSON).Deserialize(data, validator); err != nil {
 				logger.Errorf("Validator: %s not found\n", addrHuman)
+				vs.closeDecidedRequest(ctx, ar, &addrToDelete)
 				continue
 			}
 			// retrieving balance
@@ -286,6 +291,16 @@ func (vs *ValidatorStore) ExecuteAllegationTracker(ctx *ValidatorContext, active
 	}
 
 	return nil
+}
+
+// closeDecidedRequest records the verdict of a request and removes it from the open requests.
+func (vs *ValidatorStore) closeDecidedRequest(ctx *ValidatorContext, ar *evidence.AllegationRequest, decided *[]string) {
+	*decided = append(*decided, ar.ID)
+	vs.createAllegationEvent(ar)
+	if err := ctx.EvidenceStore.SetAllegationRequest(ar); err != nil {
+		logger.Errorf("Failed to update allegation request: %s\n", err)
+	}
+	ctx.EvidenceStore.DeleteAllegationRequest(ar.ID)
 }
 
 func (vs *ValidatorStore) getDelayUnstakeKey(height int64, address keys.Address) []byte {
